@@ -176,21 +176,6 @@ def hExpand (σ : State S) (a : Handle) (rCount cCount : Nat) : R (State S × Ha
   let t ← expandConv (σ.tensorOf a) rCount cCount
   pure (σ.alloc t [a] (some .expand) a.tracked)
 
-/-- the shape bookkeeping and the refusals of `conv`: `(depth, fr, fc, rCount, cCount)` -/
-def convParams (idims fdims : List Nat) (sr sc : Nat) : R (Nat × Nat × Nat × Nat × Nat) := do
-  let n := idims.length
-  let fn := fdims.length
-  if n = 0 then throw .underflow
-  if !(n ≥ 3 && fn ≥ 3) then throw .rank
-  let depth ← dimFromEnd idims 3
-  let rows ← dimFromEnd idims 2
-  let cols ← dimFromEnd idims 1
-  let fr ← dimFromEnd fdims 2
-  let fc ← dimFromEnd fdims 1
-  if rows < fr || cols < fc then throw .underflow
-  if sr = 0 || sc = 0 then throw .underflow
-  pure (depth, fr, fc, (rows - fr) / sr + 1, (cols - fc) / sc + 1)
-
 def hConv (σ : State S) (image filters : Handle) (sr sc : Nat) : R (State S × Handle) := do
   let prm ← convParams image.dims filters.dims sr sc
   let (σ1, unrolled) ← hUnroll σ image sr sc prm.2.1 prm.2.2.1
